@@ -235,6 +235,15 @@ func forEachShape(ver int, f func(i int, cs strCase, label string)) {
 			gen.ValueRuns(ver, v, emit)
 		}
 	}
+	// moves of contiguous blocks (whole groups, halves of groups) for every representative
+	for _, v := range reps {
+		for lv := spec.Base; lv <= spec.Environmental; lv++ {
+			gen.BlockMoves(v, func(s, label string) {
+				i++
+				f(i, newStrCase(ver, lv, i%2 == 0, s), label)
+			})
+		}
+	}
 	for _, v := range []spec.Vec{reps[0], reps[4]} {
 		for lv := spec.Base; lv <= spec.Environmental; lv++ {
 			gen.Shapes(ver, v, lv, thorough(), func(s, label string) {
